@@ -27,7 +27,13 @@ class Impostor:
         return float
 
 
-N_TEMPLATES = 10
+N_TEMPLATES = 11
+
+import collections as _collections
+import time as _time
+
+Point = _collections.namedtuple("Point", "x y")
+One = _collections.namedtuple("One", "only")
 
 
 def template(t, n):
@@ -61,6 +67,11 @@ def template(t, n):
         return {"m": [{"k": ["s" * n, n]}, ("t",)], "e": ValueError("bad", n)}
     if t == 9:
         return {"imp": Impostor(n), "big": 1 << 20000, "z": 1}
+    if t == 10:
+        # subclasses of tuple / structseq (namedtuple, time.struct_time), a dict whose keys cannot be ordered against one
+        # another, a range with elements that are not cached small ints
+        return {"pt": Point(1, n), "one": One(5), "when": _time.gmtime(86400 * (n + 1)), "mixed": {1: "a", "two": 2, None: 3, (1, "a"): 4},
+                "rng": range(1000, 1003 + n), "z": 1}
     raise ValueError(t)
 
 
